@@ -41,7 +41,7 @@ class Job:
                  defines=(), unwind=6, shim=True, union_struct=False,
                  kind="proof", canary=False, timeout=600, dfcc=None,
                  functions=(), bound="", cbmc_flags=(), harness_unwind=160,
-                 native_sources=None, expect_fail=None, group=None, require=()):
+                 native_sources=None, expect_fail=None, group=None, require=(), include_dirs=()):
         self.name = name
         self.harness = harness if os.path.isabs(harness) else os.path.join(VERIF, "harness", harness)
         self.entry = entry
@@ -62,7 +62,8 @@ class Job:
         self.native_sources = native_sources
         self.expect_fail = expect_fail  # regex: obligations that MUST fail (negative control)
         self.group = group or entry
-        self.require = list(require)  # regexes: obligations that must exist and be SUCCESS
+        self.require = list(require)
+        self.include_dirs = list(include_dirs)  # regexes: obligations that must exist and be SUCCESS
 
 
 def sh(cmd, timeout=None, cwd=None, env=None, mem=True):
@@ -92,6 +93,7 @@ def compile_flags(job, canary=False):
         inc.append("-I" + os.path.join(VERIF, "shim"))
     inc += BASE_INC
     inc.append("-I" + os.path.dirname(job.harness))
+    inc += ["-I" + d for d in job.include_dirs]
     return fl + inc
 
 
@@ -149,6 +151,11 @@ def trace_inputs(trace, entry=None):
             import struct
             fl = struct.unpack(">f", int(b, 2).to_bytes(4, "big"))[0]
             text = "0x%016x" % struct.unpack(">Q", struct.pack(">d", fl))[0]
+        elif v.get("name") == "integer" and b and len(b) in (8, 16, 32, 64):
+            iv = int(b, 2)
+            if not str(typ).startswith("unsigned") and b[0] == "1":
+                iv -= 1 << len(b)
+            text = str(iv)
         elif "data" in v:
             d = str(v["data"])
             if d in ("TRUE", "true", "True"):
